@@ -111,6 +111,14 @@ def unit_level(chk: core.Check, ext):
                         if math.isfinite(back) and float(p.Min) * (1 + 1e-6) < back < float(p.Max) * (1 - 1e-6) and back != p.DefaultValue and back != p.value and (back != lit or lit == 0.0 and back != 0.0):
                             literal_probes.append((u, lit))
                             break
+                    # the parameter's DEFAULT (or current) number written in another unit — `3 mile` for a depth whose default is 3 km: a different quantity, converted like any other
+                    for lit in {float(p.DefaultValue), float(p.value)} if isinstance(p.DefaultValue, (int, float)) and isinstance(p.value, (int, float)) else ():
+                        try:
+                            back = float(ureg.Quantity(lit, convertible_unit(u.value)).to(convertible_unit(pref.value)).magnitude)
+                        except Exception:
+                            continue
+                        if math.isfinite(back) and float(p.Min) * (1 + 1e-6) < back < float(p.Max) * (1 - 1e-6) and not math.isclose(back, lit, rel_tol=1e-9):
+                            literal_probes.append((u, lit))
                 for u, x_forced in [(u, None) for u in type(pref)] + literal_probes:
                     # the number the user writes: the equivalent of `target` in unit u (pint, approximate — the exact number written is what both sides get)
                     try:
